@@ -29,10 +29,24 @@ def _method(cls: ast.ClassDef, name: str) -> ast.FunctionDef:
     raise KeyError(name)
 
 
-def _conj(test: ast.AST) -> list[str]:
+class _Rename(ast.NodeTransformer):
+    def __init__(self, m: dict[str, str]) -> None:
+        self.m = m
+
+    def visit_Name(self, node: ast.Name) -> ast.AST:  # noqa: N802
+        return ast.copy_location(ast.Name(id=self.m.get(node.id, node.id), ctx=node.ctx), node)
+
+
+def _show(node: ast.AST, roles: dict[str, str]) -> str:
+    """`ast.unparse` with locals / parameters replaced by the name of their role (so renaming a local changes nothing)"""
+    import copy
+    return ast.unparse(_Rename(roles).visit(copy.deepcopy(node)))
+
+
+def _conj(test: ast.AST, roles: dict[str, str]) -> list[str]:
     if isinstance(test, ast.BoolOp) and isinstance(test.op, ast.And):
-        return [ast.unparse(v) for v in test.values]
-    return [ast.unparse(test)]
+        return [_show(v, roles) for v in test.values]
+    return [_show(test, roles)]
 
 
 def generate(notes: list[str]) -> list[str]:
@@ -83,15 +97,16 @@ def generate(notes: list[str]) -> list[str]:
         # add_step
         fn = _method(cls, "add_step")
         c0 = fn.args.args[0].arg
+        ar = {c0: "cls", fn.args.args[1].arg: "func"}
         for n in ast.walk(fn):
             if isinstance(n, ast.AugAssign) and ast.unparse(n.target) == f"{c0}._step_functions_version":
-                bump_target = ast.unparse(n.target)
+                bump_target = _show(n.target, ar)
                 if isinstance(n.op, ast.Add) and isinstance(n.value, ast.Constant) and isinstance(n.value.value, int):
                     bump = n.value.value
             if isinstance(n, ast.Assign) and isinstance(n.targets[0], ast.Subscript) and ast.unparse(n.targets[0].value) == f"{c0}._step_functions":
-                stores.append(f"[{ast.unparse(n.targets[0].slice)}] = {ast.unparse(n.value)}")
+                stores.append(f"[{_show(n.targets[0].slice, ar)}] = {_show(n.value, ar)}")
             if isinstance(n, ast.If) and any(isinstance(s, ast.Raise) for s in ast.walk(n)) and "_get_steps_from_class" in ast.unparse(n.test):
-                dup_guard.append(ast.unparse(n.test))
+                dup_guard.append(_show(n.test, ar))
         # __init__
         init = _method(cls, "__init__")
         for n in ast.walk(init):
@@ -105,31 +120,36 @@ def generate(notes: list[str]) -> list[str]:
         # _validate
         val = _method(cls, "_validate")
         body = [s for s in val.body if not (isinstance(s, ast.Expr) and isinstance(s.value, ast.Constant))]
-        ifs = [s for s in body if isinstance(s, ast.If) and len(s.body) == 1 and isinstance(s.body[0], ast.Return)]
-        if len(ifs) >= 1:
-            disabled_guard = _conj(ifs[0].test)
-            disabled_returns = ast.unparse(ifs[0].body[0].value) if ifs[0].body[0].value is not None else "None"
-        if len(ifs) >= 2:
-            cache_guard = _conj(ifs[1].test)
-            cache_returns = ast.unparse(ifs[1].body[0].value) if ifs[1].body[0].value is not None else "None"
+        roles: dict[str, str] = {}
+        call_line = None
         for s in body:
-            if isinstance(s, ast.Assign) and isinstance(s.targets[0], ast.Name) and s.targets[0].id == "stale":
+            # the local that holds the staleness test: assigned from an expression that reads `_validated_version`
+            if isinstance(s, ast.Assign) and isinstance(s.targets[0], ast.Name) and "_validated_version" in ast.unparse(s.value):
+                roles[s.targets[0].id] = "stale"
                 stale_expr = ast.unparse(s.value)
                 if isinstance(s.value, ast.Compare) and len(s.value.ops) == 1 and isinstance(s.value.ops[0], ast.NotEq):
                     sides = {ast.unparse(s.value.left), ast.unparse(s.value.comparators[0])}
                     stale_neq = sides == {"self._validated_version", "self.__class__._step_functions_version"}
-        call_line = None
-        for s in body:
-            if isinstance(s, ast.Assign) and isinstance(s.value, ast.Call) and ast.unparse(s.value.func) == "_validate_workflow":
+            # the local that holds the result of `_validate_workflow`
+            if isinstance(s, ast.Assign) and isinstance(s.targets[0], ast.Name) and isinstance(s.value, ast.Call) \
+                    and ast.unparse(s.value.func) == "_validate_workflow":
+                roles[s.targets[0].id] = "result"
                 call_line = s.lineno
+        ifs = [s for s in body if isinstance(s, ast.If) and len(s.body) == 1 and isinstance(s.body[0], ast.Return)]
+        if len(ifs) >= 1:
+            disabled_guard = _conj(ifs[0].test, roles)
+            disabled_returns = _show(ifs[0].body[0].value, roles) if ifs[0].body[0].value is not None else "None"
+        if len(ifs) >= 2:
+            cache_guard = _conj(ifs[1].test, roles)
+            cache_returns = _show(ifs[1].body[0].value, roles) if ifs[1].body[0].value is not None else "None"
         for s in body:
             if isinstance(s, ast.Assign) and len(s.targets) == 1 and isinstance(s.targets[0], ast.Attribute) \
                     and isinstance(s.targets[0].value, ast.Name) and s.targets[0].value.id == "self":
                 after.append(s.targets[0].attr)
                 if s.targets[0].attr == "_validated_version":
-                    version_value = ast.unparse(s.value)
+                    version_value = _show(s.value, roles)
                 if s.targets[0].attr == "_validation_result":
-                    result_value = ast.unparse(s.value)
+                    result_value = _show(s.value, roles)
                 if call_line is not None and s.lineno < call_line:
                     after.append("!before-the-call")
         call_before_assign = call_line is not None and "!before-the-call" not in after
